@@ -36,6 +36,15 @@ func (s S3IndexStore) GetIndexReader(name string) (r io.ReadCloser, e error) {
 	if err != nil {
 		return r, errors.Wrap(err, s.String())
 	}
+	// GetObject doesn't talk to the server yet, a missing object or a failure
+	// would only show when reading.
+	if _, err := obj.Stat(); err != nil {
+		obj.Close()
+		if e, ok := err.(minio.ErrorResponse); ok && e.Code == "NoSuchKey" {
+			return r, NoSuchObject{name}
+		}
+		return r, errors.Wrap(err, s.String())
+	}
 	return obj, nil
 }
 
